@@ -11,7 +11,8 @@ package codec
 
 //@ func V2.ReadHeaderWithValidation
 //@ property C10 C09
-//@ requires len(buf) <= 4294967295 && v.HeaderSize == 12
+//@ requires len(buf) <= 4294967295
+//@ assume v.HeaderSize == 12 because "V2 values are only the package-level v2 (HeaderSize 12); HeaderSize is never written outside the package initialiser"
 //@ ensures err == nil ==> payloadSize > 0 && startFileOffset + 12 + payloadSize <= len(buf)
 //@ ensures err == nil ==> payloadSize == be32(buf, startFileOffset) && previousCrc == be32(buf, startFileOffset+4) && payloadCrc == be32(buf, startFileOffset+8)
 //@ ensures err == nil ==> payloadCrc == crcValue(crc32Update(previousCrc, buf[startFileOffset+12 : startFileOffset+12+payloadSize]))
@@ -21,7 +22,8 @@ package codec
 
 //@ func V1.ReadHeaderWithValidation
 //@ property C10 C09
-//@ requires len(buf) <= 4294967295 && v.HeaderSize == 4
+//@ requires len(buf) <= 4294967295
+//@ assume v.HeaderSize == 4 because "V1 values are only the package-level v1 (HeaderSize 4); HeaderSize is never written outside the package initialiser"
 //@ ensures err == nil ==> payloadSize > 0 && startFileOffset + 4 + payloadSize <= len(buf)
 //@ ensures err == nil ==> payloadSize == be32(buf, startFileOffset)
 //@ ensures err != nil ==> errIs(err, ErrOffsetOutOfBounds) || errIs(err, ErrEmptyPayload)
@@ -29,38 +31,46 @@ package codec
 
 //@ func V2.GetHeaderSize
 //@ property C10 C09
-//@ ensures result == v.HeaderSize
-//@ modifies nothing
+//@ stable
+//@ assume v.HeaderSize == 12 because "V2 values are only the package-level v2 (HeaderSize 12); HeaderSize is never written outside the package initialiser"
+//@ ensures result == v.HeaderSize && result == 12
 
 //@ func V1.GetHeaderSize
 //@ property C10 C09
-//@ ensures result == v.HeaderSize
-//@ modifies nothing
+//@ stable
+//@ assume v.HeaderSize == 4 because "V1 values are only the package-level v1 (HeaderSize 4); HeaderSize is never written outside the package initialiser"
+//@ ensures result == v.HeaderSize && result == 4
 
 //@ func V2.GetRecordSize
 //@ property C10 C09
-//@ requires len(buf) <= 4294967295 && v.HeaderSize == 12
+//@ requires len(buf) <= 4294967295
+//@ assume v.HeaderSize == 12 because "V2 values are only the package-level v2 (HeaderSize 12); HeaderSize is never written outside the package initialiser"
 //@ ensures result1 == nil ==> result0 == 12 + be32(buf, startFileOffset) && startFileOffset + result0 <= len(buf) && result0 > 12
 //@ modifies nothing
 
 //@ func V1.GetRecordSize
 //@ property C10 C09
-//@ requires len(buf) <= 4294967295 && v.HeaderSize == 4
+//@ requires len(buf) <= 4294967295
+//@ assume v.HeaderSize == 4 because "V1 values are only the package-level v1 (HeaderSize 4); HeaderSize is never written outside the package initialiser"
 //@ ensures err == nil ==> payloadSize == 4 + be32(buf, startFileOffset) && startFileOffset + payloadSize <= len(buf) && payloadSize > 4
 //@ modifies nothing
 
 //@ func V2.ReadRecordWithValidation
 //@ property C10 C09
-//@ requires len(buf) <= 4294967295 && v.HeaderSize == 12
+//@ requires len(buf) <= 4294967295
+//@ assume v.HeaderSize == 12 because "V2 values are only the package-level v2 (HeaderSize 12); HeaderSize is never written outside the package initialiser"
 //@ ensures err == nil ==> len(payload) == be32(buf, startFileOffset) && startFileOffset + 12 + len(payload) <= len(buf)
 //@ ensures err == nil ==> forall k int :: 0 <= k && k < len(payload) ==> payload[k] == buf[startFileOffset+12+k]
 //@ ensures err != nil ==> errIs(err, ErrOffsetOutOfBounds) || errIs(err, ErrEmptyPayload) || errIs(err, ErrDataCorrupted)
+//@ modifies nothing
 
 //@ func V1.ReadRecordWithValidation
 //@ property C10 C09
-//@ requires len(buf) <= 4294967295 && v.HeaderSize == 4
+//@ requires len(buf) <= 4294967295
+//@ assume v.HeaderSize == 4 because "V1 values are only the package-level v1 (HeaderSize 4); HeaderSize is never written outside the package initialiser"
 //@ ensures err == nil ==> len(payload) == be32(buf, startFileOffset) && startFileOffset + 4 + len(payload) <= len(buf)
 //@ ensures err == nil ==> forall k int :: 0 <= k && k < len(payload) ==> payload[k] == buf[startFileOffset+4+k]
+//@ modifies nothing
 
 //@ func BorrowEmptyIndexBuf
 //@ property C10
@@ -69,7 +79,8 @@ package codec
 
 //@ func V2.RecoverIndex
 //@ property C10
-//@ requires len(buf) <= 4294967295 && v.HeaderSize == 12 && startFileOffset <= len(buf)
+//@ requires len(buf) <= 4294967295 && startFileOffset <= len(buf)
+//@ assume v.HeaderSize == 12 because "V2 values are only the package-level v2 (HeaderSize 12); HeaderSize is never written outside the package initialiser"
 //@ requires 0 <= baseEntryOffset && baseEntryOffset < 4611686018427387904
 //@ loop 0 invariant startFileOffset <= newFileOffset && newFileOffset <= len(buf)
 //@ loop 0 invariant baseEntryOffset <= currentEntryOffset && len(index) == 4*(currentEntryOffset-baseEntryOffset)
@@ -79,9 +90,65 @@ package codec
 
 //@ func V1.RecoverIndex
 //@ property C10
-//@ requires len(buf) <= 4294967295 && v.HeaderSize == 4 && startFileOffset <= len(buf)
+//@ requires len(buf) <= 4294967295 && startFileOffset <= len(buf)
+//@ assume v.HeaderSize == 4 because "V1 values are only the package-level v1 (HeaderSize 4); HeaderSize is never written outside the package initialiser"
 //@ requires 0 <= baseEntryOffset && baseEntryOffset < 4611686018427387904
 //@ loop 0 invariant startFileOffset <= newFileOffset && newFileOffset <= len(buf)
 //@ loop 0 invariant baseEntryOffset <= currentEntryOffset && len(index) == 4*(currentEntryOffset-baseEntryOffset)
 //@ loop 0 decreases len(buf) - newFileOffset
+//@ ensures err == nil ==> lastEntryOffset == baseEntryOffset + len(index)/4 - 1 && startFileOffset <= newFileOffset && newFileOffset <= len(buf)
+
+//@ func V2.WriteRecord
+//@ property C09
+//@ requires startOffset + 12 + len(payload) <= len(buf) && len(buf) <= 4294967295 && separate(buf, payload)
+//@ ensures recordSize == 12 + len(payload) && payloadCrc == crcValue(crc32Update(previousCrc, payload))
+//@ ensures be32(buf, startOffset) == len(payload) && be32(buf, startOffset+4) == previousCrc && be32(buf, startOffset+8) == payloadCrc
+//@ ensures forall k int :: 0 <= k && k < len(payload) ==> buf[startOffset+12+k] == payload[k]
+//@ ensures forall k int :: 0 <= k && k < len(buf) && (k < startOffset || k >= startOffset + 12 + len(payload)) ==> buf[k] == old(buf[k])
+//@ modifies elems(buf)
+
+//@ func V1.WriteRecord(recv, buf, startOffset, previousCrc, payload)
+//@ property C09
+//@ requires startOffset + 4 + len(payload) <= len(buf) && len(buf) <= 4294967295 && separate(buf, payload)
+//@ ensures recordSize == 4 + len(payload)
+//@ ensures be32(buf, startOffset) == len(payload)
+//@ ensures forall k int :: 0 <= k && k < len(payload) ==> buf[startOffset+4+k] == payload[k]
+//@ ensures forall k int :: 0 <= k && k < len(buf) && (k < startOffset || k >= startOffset + 4 + len(payload)) ==> buf[k] == old(buf[k])
+//@ modifies elems(buf)
+
+// ---------------------------------------------------------------------------
+// Interface-level contracts of codec.Codec: what the WAL segments rely on. Each
+// implementation (V1, V2) is checked to refine them.
+
+//@ func Codec.GetHeaderSize
+//@ property C09 C10
+//@ stable
+//@ ensures result == 4 || result == 12
+
+//@ func Codec.GetRecordSize(recv, buf, startFileOffset) (size, err)
+//@ property C09 C10
+//@ requires len(buf) <= 4294967295
+//@ ensures err == nil ==> size == recv.GetHeaderSize() + be32(buf, startFileOffset) && startFileOffset + size <= len(buf) && size > recv.GetHeaderSize()
+//@ modifies nothing
+
+//@ func Codec.ReadRecordWithValidation(recv, buf, startFileOffset) (payload, err)
+//@ property C09 C10
+//@ requires len(buf) <= 4294967295
+//@ ensures err == nil ==> len(payload) == be32(buf, startFileOffset) && startFileOffset + recv.GetHeaderSize() + len(payload) <= len(buf)
+//@ ensures err == nil ==> forall k int :: 0 <= k && k < len(payload) ==> payload[k] == buf[startFileOffset+recv.GetHeaderSize()+k]
+//@ modifies nothing
+
+//@ func Codec.WriteRecord(recv, buf, startOffset, previousCrc, payload) (recordSize, payloadCrc)
+//@ property C09
+//@ requires startOffset + recv.GetHeaderSize() + len(payload) <= len(buf) && len(buf) <= 4294967295 && separate(buf, payload)
+//@ ensures recordSize == recv.GetHeaderSize() + len(payload)
+//@ ensures be32(buf, startOffset) == len(payload)
+//@ ensures forall k int :: 0 <= k && k < len(payload) ==> buf[startOffset+recv.GetHeaderSize()+k] == payload[k]
+//@ ensures forall k int :: 0 <= k && k < len(buf) && (k < startOffset || k >= startOffset + recv.GetHeaderSize() + len(payload)) ==> buf[k] == old(buf[k])
+//@ modifies elems(buf)
+
+//@ func Codec.RecoverIndex(recv, buf, startFileOffset, baseEntryOffset, commitOffset) (index, lastCrc, newFileOffset, lastEntryOffset, err)
+//@ property C09 C10
+//@ requires len(buf) <= 4294967295 && startFileOffset <= len(buf)
+//@ requires 0 <= baseEntryOffset && baseEntryOffset < 4611686018427387904
 //@ ensures err == nil ==> lastEntryOffset == baseEntryOffset + len(index)/4 - 1 && startFileOffset <= newFileOffset && newFileOffset <= len(buf)
